@@ -123,6 +123,10 @@ theorem writeCell (c : CellId) (v : Val) : Safe (Jqawk.writeCell c v) :=
   fun s => ⟨⟨FramesKeep.refl _, rfl, rfl, ⟨[], rfl⟩, depth_refl s⟩, rfl⟩
 theorem setHeap (h : Heap) : Safe (Jqawk.setHeap h) :=
   fun s => ⟨⟨FramesKeep.refl _, rfl, rfl, ⟨[], rfl⟩, depth_refl s⟩, rfl⟩
+theorem allocArrM (items : Array CellId) : Safe (Jqawk.allocArrM items) :=
+  fun s => ⟨⟨FramesKeep.refl _, rfl, rfl, ⟨[], rfl⟩, depth_refl s⟩, rfl⟩
+theorem allocObjM (m : List (Bytes × CellId)) : Safe (Jqawk.allocObjM m) :=
+  fun s => ⟨⟨FramesKeep.refl _, rfl, rfl, ⟨[], rfl⟩, depth_refl s⟩, rfl⟩
 theorem emit (b : Bytes) : Safe (Jqawk.emit b) :=
   fun s => ⟨⟨FramesKeep.refl _, rfl, rfl, ⟨[b], rfl⟩, depth_refl s⟩, rfl⟩
 theorem setReturnVal (c : Option CellId) :
@@ -196,6 +200,8 @@ macro "safe_step" : tactic => `(tactic| with_reducible_and_instances first
   | exact Safe.writeCell _ _
   | exact Safe.setHeap _
   | exact Safe.emit _
+  | exact Safe.allocArrM _
+  | exact Safe.allocObjM _
   | exact Safe.setReturnVal _
   | exact Safe.setLocal _ _
   | exact Safe.getVariable _
